@@ -12,9 +12,9 @@ from harness.groups_common import (ANCHORS, ASSUMPTIONS, LEAN_COMPONENT, TRUSTED
 
 PID = "C07"
 PROPS_MODULE = "Haiway.Props.C07"
-RULE = ("case = scope program as in C06 (no disposables) + explicit schedule; directed programs with every schedule of "
+RULE = ("case = scope program as in C06 (incl. disposables with gated / raising enter and exit) + explicit schedule; directed programs with every schedule of "
         "length <= 3 (quick) / <= 5 (thorough); random programs, each fourth one swept with one Task.cancel() injected at "
-        "every schedule step on each of the 3 highest live tasks (= every gate the victim can block on: body, exit wait of "
+        "every schedule step on each of the 3 highest live tasks (= every gate the victim can block on: body, disposables enter and cleanup, exit wait of "
         "every nesting level), thorough additionally pairs of cancellations; ctx.cancel() and check_cancellation statements "
         "at random positions; non-trivial = a cancellation request reaches a started, live task while it is inside >= 1 "
         "async scope (body or exit wait), or a check_cancellation runs after a request; distinct = by case text")
@@ -30,9 +30,10 @@ def corpus():
 
 def generate(rng, tier):
     yield from gc.directed(3 if tier == "quick" else 5)
-    n = 5000 if tier == "quick" else 60000
+    n = 4000 if tier == "quick" else 60000
     for i in range(n):
-        c = gc.gen(rng, depth=rng.choice([2, 3, 3, 4]), p_raise=rng.choice([0.03, 0.08]), p_cancel=rng.choice([0.3, 0.5]))
+        c = gc.gen(rng, depth=rng.choice([2, 3, 3, 4]), p_raise=rng.choice([0.03, 0.08]), p_cancel=rng.choice([0.3, 0.5]),
+                   p_disp=rng.choice([0.0, 0.0, 0.4]))
         yield c
         if i % 4 == 0:
             yield from gc.sweep(c)
@@ -60,6 +61,7 @@ def classify(case: str, out: str):
         v = gc.View(case, out)
         for pos, t in gc.cancel_requests(v):
             w = gc.delivery_point(v, t, pos)
-            yield "cancel-delivered:" + ("task-end" if w is None else w[0] if w[0] == "gate" else f"exit-wait/body-{w[2] if w[2] in gc.OUT else 'other'}")
+            yield "cancel-delivered:" + ("task-end" if w is None else f"exit-wait/reason-{w[2] if w[2] in gc.OUT else 'other'}"
+                                         if w[0] == "exit" else w[0])
             if gc.excused(v, t, pos):
                 yield "cancel:excused-by-user-code"
